@@ -123,7 +123,7 @@ def run_canaries(prop):
                 out["skipped"].append(d)  # the library changed under the patch
                 continue
             out["run"] += 1
-            env = {**os.environ, "PVC_REPO": tmp, "PVC_EVIDENCE_DIR": os.path.join(tmp, "evidence"), "PVC_CANARY": "0"}
+            env = {**os.environ, "PVC_REPO": tmp, "PVC_EVIDENCE_DIR": os.path.join(tmp, "evidence"), "PVC_CANARY": "0", "PVC_NO_DEMOS": "1"}
             r = subprocess.run([sys.executable, "-m", "pvc.driver", prop, "quick"], cwd=ROOT, env=env, capture_output=True, text=True, timeout=900)
             (out["killed"] if r.returncode == 1 and "VIOLATION" in r.stdout else out["survived"]).append(d)
         except Exception as e:  # noqa
